@@ -354,5 +354,10 @@ fn explore(case: &Case) -> Verdict {
     }
     counters.insert("fault_runs".into(), total);
     v.counters = counters;
+    if let Some(rec) = base.commits.last() {
+        if let Some(call) = rec.calls.last() {
+            v.extra_out = json!({"sample_fault": {"commit": rec.n, "call_index": rec.calls.len() - 1, "call": call.name(), "calls_in_this_commit": rec.calls.iter().map(|c| c.name()).collect::<Vec<_>>()}});
+        }
+    }
     v
 }
